@@ -19,6 +19,9 @@ class Panics(NoEval):
     """the fragment would panic on this input (index out of bounds, unwrap on None): callers that care may treat it as an observed outcome"""
 
 
+_FMT_CACHE = {}
+
+
 class FmtArgs(str):
     """the text of an evaluated format_args!"""
 
@@ -109,6 +112,51 @@ class View(Obj):
         raise Panics('index out of bounds')
 
 
+def _hashable(k):
+    if isinstance(k, Cell):
+        k = k.get()
+    if isinstance(k, list):
+        return tuple(_hashable(x) for x in k)
+    if isinstance(k, tuple):
+        return tuple(_hashable(x) for x in k)
+    return k
+
+
+class PeekIter(Obj):
+    """a stateful iterator (`.peekable()`, or an iterator bound to a local and advanced with next())"""
+
+    def __init__(self, items):
+        self.items, self.pos = list(items), 0
+        Obj.__init__(self, 'iterator', {
+            'peek': lambda a: some(self.items[self.pos]) if self.pos < len(self.items) else NONE,
+            'next': self._next, 'by_ref': lambda a: self, 'peekable': lambda a: self,
+            'collect': lambda a: self._rest(), 'count': lambda a: len(self._rest()),
+            'next_if_eq': self._next_if_eq, 'next_if': self._next_if,
+        }, strict=True)
+
+    def _next_if_eq(self, a):
+        x = a[0].get() if isinstance(a[0], Cell) else a[0]
+        if self.pos < len(self.items) and self.items[self.pos] == x:
+            return self._next(())
+        return NONE
+
+    def _next_if(self, a):
+        if self.pos < len(self.items) and a[0](self.items[self.pos]):
+            return self._next(())
+        return NONE
+
+    def _next(self, a):
+        if self.pos < len(self.items):
+            self.pos += 1
+            return some(self.items[self.pos - 1])
+        return NONE
+
+    def _rest(self):
+        r = self.items[self.pos:]
+        self.pos = len(self.items)
+        return r
+
+
 def deep_clone(v):
     """Rust's Clone on the modelled containers (host objects are shared: they are immutable values or deliberate references)"""
     if isinstance(v, dict):
@@ -141,7 +189,17 @@ class Interp:
 
     def _format_args(self, b, env):
         """a `format_args!` expansion evaluates to its text (arguments printed with str(); only plain `{}` placeholders)"""
-        for tmpl, args, node in hir.format_calls(b):
+        cache = _FMT_CACHE
+        key = id(b)
+        if key not in cache:
+            hit = None
+            if any(n_.get('k') == 'Lit' and str(n_.get('v', '')).startswith('ByteStr(') for n_ in hir.nodes(b)):
+                for tmpl, args, node in hir.format_calls(b):
+                    if node is b:
+                        hit = (tmpl, args, node)
+            cache[key] = (b, hit)      # the node is kept so that its id stays valid
+        hit = cache[key][1]
+        for tmpl, args, node in ([hit] if hit else []):
             if node is b:
                 if tmpl is None:
                     raise NoEval('format template')
@@ -194,6 +252,22 @@ class Interp:
             if im['self'].replace('mut ', '').strip() == lty.replace('mut ', '') and arg.replace('mut ', '').strip() == rty.replace('mut ', ''):
                 cands.append(im['methods'][0][1])
         return cands[0] if len(cands) == 1 and self._inlinable(cands[0]) else None
+
+    def _impl_method(self, self_ty, name, trait_prefix=None):
+        """fn key of method `name` in an impl block for `self_ty` of the analysed crate (trait impls and inherent impls)"""
+        if self.facts is None:
+            return None
+        out = []
+        for im in self.facts.get('impls', []):
+            if im['self'].replace('&', '').replace('mut ', '').strip() != self_ty:
+                continue
+            if trait_prefix is not None and not (im.get('trait') or '').startswith(trait_prefix):
+                continue
+            for n, k in im['methods']:
+                if n == name:
+                    out.append(k)
+        out = [k for k in out if self._inlinable(k)]
+        return out[0] if len(out) == 1 else None
 
     def _inlinable(self, c):
         return self.facts is not None and c in self.facts['fns'] and (self.inline is None or self.inline(c))
@@ -338,6 +412,12 @@ class Interp:
             try:
                 if op == 'Sub' and isinstance(a, int) and isinstance(b, int) and a < b and 'usize' in (e.get('ty') or ''):
                     raise NoEval('usize underflow')
+                if op in ('BitXor', 'BitAnd', 'BitOr', 'Shl', 'Shr'):
+                    if isinstance(a, bool) and isinstance(b, bool):
+                        return {'BitXor': a != b, 'BitAnd': a and b, 'BitOr': a or b}[op]
+                    if isinstance(a, int) and isinstance(b, int):
+                        return {'BitXor': a ^ b, 'BitAnd': a & b, 'BitOr': a | b, 'Shl': a << b, 'Shr': a >> b}[op]
+                    raise NoEval('binary %s' % op)
                 return {'Add': lambda: a + b, 'Sub': lambda: a - b, 'Mul': lambda: a * b, 'Div': lambda: a // b, 'Rem': lambda: a % b,
                         'Eq': lambda: a == b, 'Ne': lambda: a != b, 'Lt': lambda: a < b, 'Le': lambda: a <= b, 'Gt': lambda: a > b, 'Ge': lambda: a >= b}[op]()
             except (KeyError, TypeError, ZeroDivisionError):
@@ -361,6 +441,15 @@ class Interp:
             i = self.ev(e['i'], env)
             if isinstance(b, Obj) and hasattr(b, 'getitem'):
                 return b.getitem(i)
+            if isinstance(b, dict) and '__struct__' in b:
+                it_ = (e['i'].get('ty') or '').strip()
+                k_ = None
+                for im in (self.facts or {}).get('impls', []):
+                    if im['self'] == b['__struct__'] and (im.get('trait') or '') == 'std::ops::Index<%s>' % it_:
+                        k_ = im['methods'][0][1]
+                if k_ is None or not self._inlinable(k_):
+                    raise NoEval('index on %s' % b['__struct__'])
+                return self.local_call(k_, [b, i])
             try:
                 if isinstance(b, dict):
                     return b[i]
@@ -390,7 +479,9 @@ class Interp:
                     return r.v
             return fn
         if k == 'Block':
-            return self.block(hir.stmts_of(e), dict(env))
+            return self.block(hir.stmts_of(e), env)
+        if k == 'LetCond':
+            return bool(self.bind(e['pat'], self.ev(e['init'], env), env))
         if k == 'If':
             c = hir.strip(e['cond'])
             if c.get('k') == 'LetCond':
@@ -461,6 +552,8 @@ class Interp:
             v_ = v_.get() if isinstance(v_, Cell) else v_
             if isinstance(v_, (bool, int)):
                 return int(v_)
+        if c.endswith(('panic_fmt', 'begin_panic', 'panic_display', 'panic_explicit', 'assert_failed', 'panic_nounwind', 'unreachable_display', 'panic_str')) or c in ('core::panicking::panic', 'std::rt::panic_fmt'):
+            raise Panics('explicit panic / failed assertion')
         if c.endswith('mem::swap') and len(e['args']) == 2:
             a_, b_ = self.ev(e['args'][0], env), self.ev(e['args'][1], env)
             a_ = a_.get() if isinstance(a_, Cell) else a_
@@ -551,6 +644,8 @@ class Interp:
             if not recv.strict:
                 raise Proceed('%s.%s' % (recv.name, nm))
             raise NoEval('method %s on %s' % (nm, recv.name))
+        if nm == 'peekable' and isinstance(recv, list) and not args:
+            return PeekIter(recv)
         if nm in ('clone', 'to_owned', 'copied', 'cloned', 'iter', 'into_iter', 'iter_mut', 'by_ref', 'as_slice', 'to_vec', 'as_ref', 'as_mut', 'borrow', 'peekable', 'into', 'as_deref') and not args:
             if nm in ('clone', 'to_owned', 'to_vec', 'cloned', 'copied') and isinstance(recv, (list, dict)):
                 return deep_clone(recv)
@@ -580,19 +675,23 @@ class Interp:
                 return recv
         if isinstance(recv, dict) and '__struct__' in recv and self._inlinable(e.get('callee') or ''):
             return self.local_call(e['callee'], [recv] + [self.ev(x, env) for x in args])
+        if isinstance(recv, dict) and '__struct__' in recv and nm not in ('clone',):
+            k_ = self._impl_method(recv['__struct__'], nm)
+            if k_ is not None:
+                return self.local_call(k_, [recv] + [self.ev(x, env) for x in args])
         if isinstance(recv, dict):
-            if nm == 'get':
-                k_ = A()
+            if nm in ('get', 'get_mut'):
+                k_ = _hashable(A())
                 return some(recv[k_]) if k_ in recv else NONE
             if nm == 'contains_key':
-                return A() in recv
+                return _hashable(A()) in recv
             if nm == 'insert':
-                k_, v_ = A(0), A(1)
+                k_, v_ = _hashable(A(0)), A(1)
                 old = some(recv[k_]) if k_ in recv else NONE
                 recv[k_] = v_
                 return old
             if nm == 'remove':
-                k_ = A()
+                k_ = _hashable(A())
                 return some(recv.pop(k_)) if k_ in recv else NONE
             if nm in ('keys', 'into_keys'):
                 return list(recv.keys())
@@ -805,6 +904,15 @@ class Interp:
                 return recv ** A()
         if self._inlinable(e.get('callee') or ''):
             return self.local_call(e['callee'], [recv] + [self.ev(x, env) for x in args])
+        # a trait method called through a generic parameter: dispatch on the value
+        if isinstance(recv, dict) and '__struct__' in recv:
+            k_ = self._impl_method(recv['__struct__'], nm)
+            if k_ is not None:
+                return self.local_call(k_, [recv] + [self.ev(x, env) for x in args])
+        if recv == () and self.facts is not None:
+            k_ = self._impl_method('()', nm)
+            if k_ is not None:
+                return self.local_call(k_, [recv] + [self.ev(x, env) for x in args])
         raise NoEval('method .%s on %s' % (nm, type(recv).__name__))
 
     # ------------------------------------------------------------ statements
@@ -869,7 +977,9 @@ class Interp:
                         raise NoEval('operator %s on %s' % (s['op'], lt_))
                     self.local_call(k_, [lv_, self.ev(s['r'], env)])
                     return None
-            f = {'AddAssign': lambda a, b: a + b, 'SubAssign': lambda a, b: a - b, 'MulAssign': lambda a, b: a * b}.get(s['op'])
+            f = {'AddAssign': lambda a, b: a + b, 'SubAssign': lambda a, b: a - b, 'MulAssign': lambda a, b: a * b,
+                 'BitXorAssign': lambda a, b: (a != b) if isinstance(a, bool) else a ^ b, 'BitAndAssign': lambda a, b: (a and b) if isinstance(a, bool) else a & b,
+                 'BitOrAssign': lambda a, b: (a or b) if isinstance(a, bool) else a | b, 'DivAssign': lambda a, b: a // b, 'RemAssign': lambda a, b: a % b}.get(s['op'])
             if not f:
                 raise NoEval(s['op'])
             self.place_set(s['l'], self.ev(s['r'], env), env, f)
